@@ -187,11 +187,20 @@ def build(body: List[ast.stmt]) -> CFG:
 
 
 _cfg_cache: Dict[int, CFG] = {}
+_PINNED: list = []
+
+
+def pin(obj):
+    """caches are keyed by id(node): a node whose id is a cache key is kept alive for the process, so that the id is never reused by a
+    tree built later (a stale hit would make results depend on the allocator)"""
+    _PINNED.append(obj)
+    return obj
 
 
 def cfg_of(fn_node: ast.AST) -> CFG:
     k = id(fn_node)
     if k not in _cfg_cache:
+        pin(fn_node)
         _cfg_cache[k] = build(fn_node.body)
     return _cfg_cache[k]
 
